@@ -1409,10 +1409,18 @@ class FnTranslator:
 
     # ---- expressions (continuation-passing: sub-expressions are bound in evaluation order) ----
     def exprs(self, es, env, k, acc=None):
+        """operands / arguments, left to right.  A value read before a LATER operand updates self or a local
+        (`self.len + self.pop_something()`) is bound first, so that it is not re-read after the update."""
         acc = acc or []
         if not es:
             return k(env, acc)
-        return self.expr(es[0], env, lambda env2, v, vk: self.exprs(es[1:], env2, k, acc + [(v, vk)]))
+
+        def got(env2, v, vk):
+            if any(assigned(e, self) for e in es[1:]) and not re.match(r"^(\d+|t\d+|None|true|false|tt)$", v):
+                t = self.tmp()
+                return ("let", t, v, self.exprs(es[1:], env2, k, acc + [(t, vk)]))
+            return self.exprs(es[1:], env2, k, acc + [(v, vk)])
+        return self.expr(es[0], env, got)
 
     def fallible(self, text, kind, env, k):
         t = self.tmp()
@@ -1736,6 +1744,8 @@ class FnTranslator:
 
 
 def tuple_text(parts):
+    if not parts:
+        return "tt"
     if len(parts) == 1:
         return parts[0]
     return "(" + ", ".join(parts) + ")"
